@@ -235,6 +235,12 @@ def law_violations(cases, outs, idx):
             ge = look(">=", [args[1], args[0]])
             if ge is not None and ge.get("jval") != o["jval"]:
                 bad.append((c, "a<=b differs from b>=a"))
+        if op in ("<=", ">=") and is_num(args[0]) and is_num(args[1]) and e == "none":
+            strict = look(op[0], args)
+            eq = look("==", args)
+            if strict is not None and eq is not None and strict["err"] == "none" and eq["err"] == "none":
+                if o["jval"][1] != (strict["jval"][1] or eq["jval"][1]):
+                    bad.append((c, "a%sb differs from (a%sb or a==b)" % (op, op[0])))
         if op in ("ix1", "ix2") and args[0][0] in ("str", "arr") and all(a[0] == "int" for a in args[1:]):
             n = jlen(args[0])
             ii = [int(a[1]) for a in args[1:]]
